@@ -1,7 +1,20 @@
-import LZ4V.Properties.C02
+import LZ4V.Properties.C05
 import LZ4V.Proofs.DecodeFun10
 /-!
-# C05 — every spec-valid block decodes to the specified content in every decoder (scratch: to replace C05.lean)
+# C05, the refinement — the decoder model computes the block specification, in both directions
+
+`Model/Decode.lean` is the label-by-label model of `LZ4_decompress_generic` (both loops, the three dictionary directives, partial
+decoding, every wild copy, the `inc32table`/`dec64table` trick) whose memory safety is C02.  `Proofs/DecodeFun1..10.lean` relate it to
+the specification decoder `Spec.Block.decode`, one `pstep` (one sequence) per loop iteration:
+
+* **forward** (`decompress_safe_decodes_valid_block`, `…_usingDict_…`): a block the specification decodes to `D` and whose parse obeys
+  the end-of-block rules of the format document (`endConditions`: last 5 bytes literals, last match at least 12 bytes before the end),
+  given any capacity ≥ |D| and any initial destination content, is decoded to exactly `D`, return value |D| — through the fast loop and
+  the safe loop alike.  The end-of-block rules are exactly what makes the decoder's parsing restrictions (`MFLIMIT`, `LASTLITERALS`,
+  `MATCH_SAFEGUARD_DISTANCE`, the shortcut margins) harmless: `vtail_of_valid`.
+* **converse** (`decompress_safe_success_is_spec`, `…_usingDict_…`): whenever a safe decoder returns `n ≥ 0` on ARBITRARY input, the
+  specification decodes that input to exactly the `n` bytes written — unless the format-level walk over the sequences meets an offset
+  of 0 (`HasZero`), which the unchanged code accepts (known finding F7a, witness `converse_fails_on_offset_zero`).
 -/
 namespace LZ4V.C05
 open LZ4V.Spec.Block LZ4V.Model LZ4V.Model.Decode
@@ -221,5 +234,43 @@ theorem decompress_safe_partial_usingDict_fwd (fastLoop : Bool) (blk : List UInt
     refine ⟨_, rfl, by dsimp only; omega, ?_⟩
     dsimp only
     rw [← hret, Array.toList_append, List.take_append_of_le_length (by simp only [Array.length_toList, Array.size_extract]; omega), h5]
+
+/-- **forward, `LZ4_decompress_safe`** -/
+theorem decompress_safe_decodes_valid_block (fastLoop : Bool) (blk : List UInt8) (dstInit : Bytes) (D : List UInt8) (seqs : List Seq) (last : List UInt8)
+    (hdec : decode [] blk = some D) (hparse : parse blk = some (seqs, last)) (hend : endConditions seqs last = true)
+    (hroom : D.length ≤ dstInit.size) (hcap : 0 < dstInit.size) :
+    ∃ r, decompress_safe fastLoop blk.toArray dstInit = .ok r ∧ r.ret = D.length ∧ r.buf.size = dstInit.size ∧ r.buf.toList.take D.length = D :=
+  decompress_safe_fwd fastLoop blk dstInit D seqs last hdec hparse hend hroom hcap
+
+/-- **converse, `LZ4_decompress_safe`** -/
+theorem decompress_safe_success_is_spec (fastLoop : Bool) (src dstInit : Bytes) (r : Result) (h : decompress_safe fastLoop src dstInit = .ok r)
+    (hret : 0 ≤ r.ret) : decode [] src.toList = some (r.buf.toList.take r.ret.toNat) ∨ (∃ f, HasZero f src.toList) :=
+  decompress_safe_conv fastLoop src dstInit r h hret
+
+/-- a zero-capacity destination: only the one-byte block `00` is accepted (`[0x05]`, which the specification also reads as an empty
+    block, is rejected here although it is accepted with any capacity ≥ 1: the reason the forward theorems ask for `0 < capacity`) -/
+theorem zero_capacity (fastLoop : Bool) (src : Bytes) :
+    decompress_safe fastLoop src #[] = .ok ⟨if src.size = 1 ∧ src[0]! = 0 then 0 else -1, #[]⟩ := by
+  unfold decompress_safe generic
+  simp only [Array.size_empty, Nat.sub_self, if_true, Bool.false_eq_true, if_false]
+  split <;> rfl
+
+/-! ## non-vacuity: a block that meets every hypothesis of the forward theorems, run through them -/
+
+/-- `14 41 01 00 50 76 77 78 79 7a` : literal `A`, match of 8 at offset 1, last literals `vwxyz` (14 bytes of content; the match starts
+    at 1 ≤ 14 − 12 and 5 literals end the block) -/
+def sampleBlock : List UInt8 := [0x14, 0x41, 0x01, 0x00, 0x50, 0x76, 0x77, 0x78, 0x79, 0x7a]
+def sampleContent : List UInt8 := [0x41, 0x41, 0x41, 0x41, 0x41, 0x41, 0x41, 0x41, 0x41, 0x76, 0x77, 0x78, 0x79, 0x7a]
+
+example : decode [] sampleBlock = some sampleContent := by decide
+example : ∃ seqs last, parse sampleBlock = some (seqs, last) ∧ endConditions seqs last = true :=
+  ⟨[⟨[0x41], 1, 8⟩], [0x76, 0x77, 0x78, 0x79, 0x7a], by decide, by decide⟩
+
+/-- the theorem applied: for EVERY initial content of a 20-byte destination and both loop settings the model returns 14 and the content -/
+example (fastLoop : Bool) (dstInit : Bytes) (h : dstInit.size = 20) :
+    ∃ r, decompress_safe fastLoop sampleBlock.toArray dstInit = .ok r ∧ r.ret = 14 ∧ r.buf.toList.take 14 = sampleContent := by
+  obtain ⟨r, h1, h2, _, h4⟩ := decompress_safe_decodes_valid_block fastLoop sampleBlock dstInit sampleContent [⟨[0x41], 1, 8⟩] [0x76, 0x77, 0x78, 0x79, 0x7a]
+    (by decide) (by decide) (by decide) (by rw [h]; decide) (by omega)
+  exact ⟨r, h1, h2, h4⟩
 
 end LZ4V.C05
